@@ -92,6 +92,10 @@ impl<'a> Gen<'a> {
                         if self.rng.chance(1, 3) {
                             let at = self.rng.usize(s.len() + 1);
                             s.insert_str(at, *self.rng.pick(&["µ", "é", "°", "日本", "ß", "€"]));
+                        } else if self.rng.chance(1, 2) {
+                            // what a careless reader of strings would take for an escape, a comment, a label
+                            let at = self.rng.usize(s.len() + 1);
+                            s.insert_str(at, crate::gen::ir::hostile_string(&mut self.rng, true));
                         }
                         let pos = self.rng.usize(ops.len() + 1);
                         ops.insert(pos, DataOp::S(s));
